@@ -112,7 +112,7 @@ def run(ctx) -> list[Inst]:
     if miss:
         raise AnalysisError(f'{EVAL}: no case found for {miss} (dispatch idiom not recognised)')
     insts = []
-    props = ('C01', 'C02')
+    props = ('C01', 'C02', 'C15')
 
     def add(op, what, verdict, msg='', line=0):
         insts.append(Inst(RULE, EVAL, f'{op}: {what}', verdict, msg=msg, file=rel,
